@@ -5,3 +5,4 @@ from . import c_payload    # noqa
 from . import c_base_server  # noqa
 from . import c_socket  # noqa
 from . import c_server  # noqa
+from . import c_middleware  # noqa
